@@ -447,6 +447,10 @@ func (fr *Frame) cutLoop(st *State, n node, l *loop) *State {
 			nv = &a
 		default:
 			nv = r.freshOf(hs, "lp_"+p.Comment, p.Type())
+			if tv, ok := nv.(TV); ok && tv.Sort == SSlice && zeroOffsetSlice(p, map[ssa.Value]bool{}) {
+				// every definition that reaches this variable is make/append/nil: the slice starts at its array's beginning
+				r.assume(hs, eq(app("s_off", tv.S), "0"))
+			}
 		}
 		hs.env[p] = nv
 		fr.setVar(hs, p.Comment, nv)
@@ -460,7 +464,23 @@ func (fr *Frame) cutLoop(st *State, n node, l *loop) *State {
 	nf := r.declare("frontier", SInt)
 	r.assumeGlobal(app(">=", nf, hs.frontier))
 	hs.frontier = nf
+	points := r.eng.mapPointTargets(l.body, fr.spec)
 	for _, h := range sortedKeys(mods) {
+		if vs, ok := points[h]; ok {
+			// only the rows of the named (loop-invariant) maps change
+			r.heapDeclare(h)
+			cur := r.heapGet(hs, h)
+			sort := r.heapSort[h]
+			nh := r.declare("lp_"+h, sort)
+			r.heapWF(nh, sort, r.eng.heapElemType[h], hs.frontier)
+			for _, v := range vs {
+				ref := fr.tv(hs, v).S
+				cur = app("store", cur, ref, app("select", nh, ref))
+			}
+			r.heapSet(hs, h, cur)
+			rec.havocked = append(rec.havocked, h)
+			continue
+		}
 		r.heapHavoc(hs, h)
 		rec.havocked = append(rec.havocked, h)
 	}
@@ -1430,4 +1450,32 @@ func (fr *Frame) sliceOp(st *State, x *ssa.Slice) {
 		}
 		fr.bind(st, x, r.freshOf(st, "substr", x.Type()))
 	}
+}
+
+// zeroOffsetSlice: v is a slice value all of whose reaching definitions are make, append (modelled as a fresh array) or nil.
+func zeroOffsetSlice(v ssa.Value, seen map[ssa.Value]bool) bool {
+	if seen[v] {
+		return true
+	}
+	seen[v] = true
+	switch x := v.(type) {
+	case *ssa.MakeSlice:
+		return true
+	case *ssa.Const:
+		return x.IsNil()
+	case *ssa.Phi:
+		for _, e := range x.Edges {
+			if !zeroOffsetSlice(e, seen) {
+				return false
+			}
+		}
+		return true
+	case *ssa.Call:
+		if b, ok := x.Call.Value.(*ssa.Builtin); ok && b.Name() == "append" {
+			if _, isSlice := x.Type().Underlying().(*types.Slice); isSlice {
+				return true
+			}
+		}
+	}
+	return false
 }
